@@ -12,7 +12,7 @@ Inductive yev :=
 | YEnable | YDisable
 | YLinkUp                       (* the link is selected *)
 | YLinkDown                     (* the link is lost *)
-| YInS1F13                      (* establish communications request received *)
+| YInS1F13 (accept : bool)     (* establish communications request received; accept: what the application decides (COMMACK 0) or denies (COMMACK 1) *)
 | YInS1F14 (commack : Z) (readable : bool)
 | YInOther (registered : bool) (w : bool)     (* any other message; registered: a callback exists for it *)
 | YT3                           (* reply timeout of our S1F13 *)
@@ -50,11 +50,13 @@ Definition e30c_step (s : e30c) (e : yev) : list (e30c * list yout) :=
     | YWaitCRA | YWaitDelay => [(s0, []); ({| y_state := YIdle; y_link := false |}, [])]
     | _ => [(s0, [])]
     end
-  | YInS1F13 =>
+  | YInS1F13 accept =>
+    (* the request is answered with the application's decision; only an accepted one (COMMACK 0) establishes communication *)
+    let a := if accept then 0 else 1 in
     match y_state s with
-    | YWaitCRA => [(st s YComm, [YSendS1F14 0])]
-    | YWaitDelay => [(s, []); (st s YComm, [YSendS1F14 0])]
-    | YComm => [(s, [YSendS1F14 0]); (s, [YSendS1F14 0; YHandled])]
+    | YWaitCRA => [(if accept then st s YComm else s, [YSendS1F14 a])]
+    | YWaitDelay => [(s, []); (if accept then st s YComm else s, [YSendS1F14 a])]
+    | YComm => [(s, [YSendS1F14 a]); (s, [YSendS1F14 a; YHandled])]
     | _ => [(s, [])]
     end
   | YInS1F14 c readable =>
